@@ -201,6 +201,8 @@ def make_case(g: G, depth, opts):
         try:
             prog, atys, rty = g.any_prog(depth)
             infer(prog, atys)
+            if _dup_addrs(prog) and has_node(prog, SWITCHY):
+                continue      # every branch of a switch is staged: a duplicate in an unselected branch raises too
             break
         except Exception:  # noqa: BLE001  (an ill-typed draw; try again)
             continue
@@ -249,7 +251,7 @@ def make_case(g: G, depth, opts):
             ops.append(["assessSelf"])
         elif k == "assess":
             c_full = g.constraint(universe, coverage=1.0, bogus=0.0)
-            if (opts.get("assess_partial") and r.random() < opts["assess_partial"]
+            if (opts.get("assess_partial") and r.random() < opts["assess_partial"] and prog[0] == "static"
                     and not has_node(prog, SWITCHY + ("vmap", "scan", "repeat", "accumulate", "reduce", "iterate",
                                                       "iterate_final", "masked_iterate", "masked_iterate_final", "mask"))):
                 # a partial sample: both sides must raise MissingAddress (or accept it if nothing is missing)
@@ -362,6 +364,19 @@ def make_case(g: G, depth, opts):
                     btags = ["N" if (sm and r.random() < 0.6) else "U" for sm in bsame]
                 ops.append(["bwd", r.randint(0, 2**31 - 1), back, (btags[0] == "U") if btags else False, btags])
                 cur_args = ops[-1][2]
+    dups = _dup_addrs(prog)
+    if dups:
+        # an address traced twice must raise AddressReuse; a constraint under it, meant for the first
+        # site, need not fit the second site's shape (the implementation runs the callee before it
+        # records the address): keep such entries out, the reuse is still reached
+        def touches(path):
+            sp = [k for k in path if isinstance(k, str)]
+            return any(sp[i:i + len(a)] == list(a) for a in dups for i in range(len(sp) - len(a) + 1))
+        for op in ops:
+            for k, x in enumerate(op):
+                if isinstance(x, list) and x and all(isinstance(e, list) and len(e) == 2 and isinstance(e[0], list) for e in x) \
+                        and op[0] in ("gen", "upd", "assess"):
+                    op[k] = [e for e in x if not touches(e[0])]
     case = {"prog": prog, "atys": atys, "ops": ops}
     if opts.get("retag"):
         case["retag"] = True
@@ -374,6 +389,30 @@ def make_case(g: G, depth, opts):
     elif opts.get("py") and r.random() < opts["py"]:
         case["py"] = True         # top-level integer arguments as Python ints / bools, eagerly
     return case
+
+
+def _dup_addrs(prog):
+    """Addresses traced twice by one static function, anywhere in the program."""
+    out = set()
+
+    def walk(p):
+        if not isinstance(p, list):
+            return
+        if p and p[0] == "static":
+            seen, b = set(), p[1]
+            while b[0] == "bind":
+                a = tuple(b[1])
+                if a in seen:
+                    out.add(a)
+                seen.add(a)
+                walk(b[2])
+                b = b[4]
+            return
+        for x in p:
+            walk(x)
+
+    walk(prog)
+    return out
 
 
 def _mentions(e, k):
@@ -404,10 +443,14 @@ def _index_editable(prog, atys):
         return False
     if prog[0] == "vmap":
         return True
-    b = prog[1][1]
+    # change tags are conservative: the carry is tagged changed, and so is the return value of every
+    # non-distribution callee that receives a tagged argument (a distribution's value keeps NoChange)
+    tainted, b, k = {0}, prog[1][1], len(atys)
     while b[0] == "bind":
-        b = b[4]
-    return not _mentions(b[1], 0)
+        if b[2][0] != "dist" and any(_mentions(e, t) for e in b[3] for t in tainted):
+            tainted.add(k)
+        b, k = b[4], k + 1
+    return not any(_mentions(b[1], t) for t in tainted)
 
 
 def _top_static_addrs(prog):
@@ -624,6 +667,8 @@ def signature(case, f):
         sig["zero_length"] = True
     if has_node(prog, SWITCHY) and any(o[0] in ("upd", "bwd") and o[-2] is True for o in case["ops"]):
         sig["switch_index_change"] = True
+    if case.get("py") and prog[0] == "mask":
+        sig["concrete_mask_flag"] = True
     if f["prop"] == "C06":
         sig = {"prop": "C06"}
         if has_node(prog, SWITCHY):
